@@ -41,6 +41,6 @@ ImplOutputs == AtExit => wev.obs.out = out
 ImplFaithful == AtExit => wev.obs.bad = {}
 ImplSolver == wev.obs.solver = Solver
 (* log files, structure files and plots are not data outputs *)
-DataFiles == out \ {"SUPERCELLS"}
+DataFiles == out \ {"SUPERCELLS", "MODULATED"}
 ImplCompared == (AtExit /\ Ok) => DataFiles \subseteq wev.obs.checked
 =============================================================================
